@@ -84,8 +84,11 @@ Definition dg_of (b : bytes) : digest := match b with [] => DZero | _ => H b end
 (* handleSessionResumption *)
 Definition handle_resumption (s : srv) (now : Z) (q : request) (wire_cmd : Z) : srv * reply * sres :=
   let '(s1, r) := srv_lookup s now (q_sid q) in
+  (* a client-side record (a session this process negotiated as a client of another
+     server) is treated like an unknown session; so is a session without a usable key *)
   let usable := match r with
-                | Some (e, w) => match usable_key e with Some k => Some (e, w, k) | None => None end
+                | Some (e, w) => if is_client_side e then None
+                                 else match usable_key e with Some k => Some (e, w, k) | None => None end
                 | None => None
                 end in
   match usable with
@@ -132,5 +135,5 @@ Definition server_entry (now : Z) (sid addr tag : str) (key : option key_info)
   (authenticated : bool) (user valid : option str) (dur lease : Z) : entry :=
   {| e_id := sid; e_addr := addr; e_tag := tag; e_key := key;
      e_policy := Some {| p_authenticated := Some authenticated; p_user := user; p_valid := valid;
-                         p_authmethods := None; p_crypto := None |};
+                         p_authmethods := None; p_crypto := None; p_client_side := None |};
      e_exp := Some (now + dur); e_lease := lease |}.
